@@ -316,12 +316,22 @@ def build_scenario(spec, wd):
                 lo, hi = vs[g - 1].pos, vs[g].pos
                 rs = [r for r in rs if not (r["start"] <= lo and r["start"] + sum(n for o, n in r["cigar"] if o in "MD") > hi)]
             reads += rs
+    if not reads:
+        # whatshap rejects an input file without any alignment ("No reads could be retrieved"): never pass one
+        reads = synth.simulate_reads(rng, sc, samples[0], sc.chroms[0], 6, len_range=(120, 380), name_prefix="fill_")
     bams = ["reads.bam"]
-    if spec.get("two_bams"):
+    groups = sorted({(r["name"], r["sample"]) for r in reads})
+    if spec.get("two_bams") and len(groups) >= 2:
         bams = ["reads.bam", "reads2.bam"]
         part = [[], []]
         for r in reads:
             part[hash_name(r["name"], r["sample"]) % 2].append(r)
+        for k in (0, 1):
+            if not part[k]:            # mates stay together: move one whole name group over
+                g = (part[1 - k][0]["name"], part[1 - k][0]["sample"])
+                part[k] = [r for r in part[1 - k] if (r["name"], r["sample"]) == g]
+                part[1 - k] = [r for r in part[1 - k] if (r["name"], r["sample"]) != g]
+        assert part[0] and part[1]
         for b, rs in zip(bams, part):
             synth.write_bam(sc, rs, os.path.join(wd, b))
     else:
